@@ -181,7 +181,7 @@ class C15(Check):
         "scheduling point; states = (files, per process: points passed + hash of observations); all reachable states explored; invariant: every process "
         "raised or returned the reference, and so does a fresh load afterwards. non-trivial = transition that changes the canonical state (E2) / "
         "state in which at least two processes are mid-run (E3)"
-        " Further: racing loaders of which one crashes at any of its file operations."
+        " Further: racing loaders of which one crashes at any of its file operations. FASTA files written by pretext-to-asm itself (real files): loaded afterwards, plainly and after an indexing run that died between .fai and .agp."
     )
     assumptions = [
         "crash model = process crash, completed writes persist, buffered bytes are lost; no torn single write, no power-loss reordering",
@@ -209,6 +209,7 @@ class C15(Check):
             out.append(("e2", b))
         out.append(("e2big", 8192))
         out.append(("e2link", 16))
+        out.append(("cliout",))
         for first in range(7):  # (a history cannot begin with load-constructed)
             out.append(("e2p", 5 if tier == "quick" else 6, first))
         pres = ("none", "stale", "valid", "fai-only")
@@ -356,6 +357,71 @@ class C15(Check):
             _res, _points, snap2, _log = do_load(snap, now, None, hist, interrupt_at=op[1])
             return snap2, now, True
         raise ValueError(op)
+
+    # ------------------------------------------------------------------ FASTA files written by the command line tool
+    def cli_outputs(self, ctx, only=None):
+        """
+        every FASTA file the command line tool writes is itself a FASTA that gets indexed later (next curation round):
+        with a clock tick between it and the files written after it, an indexing run of it that dies between its two
+        cache files must not leave a state in which the next load returns anything but that FASTA's own assembly
+        """
+        import os
+
+        from mc import cli
+        from mc.checks import c03_cli
+        from tola.fasta.index import index_fasta_file
+
+        cases = c03_cli.cases("quick")
+        picks = [cases[0], cases[len(cases) // 3], cases[-1]]
+        for k, (inp, pvspec) in enumerate(picks):
+            d = cli.scratch("verif_c15_")
+            try:
+                (d / "in").mkdir()
+                (d / "out").mkdir()
+                cli.write_fasta(d / "in" / "asm.fa", inp, width=7)
+                cli.write_pretext(d / "in" / "map.agp", pvspec)
+                rc, _o, _e, _x = cli.invoke_p2a(["-a", d / "in" / "asm.fa", "-p", d / "in" / "map.agp", "-o", d / "out" / "x.fa"])
+                if rc != 0:
+                    continue
+                for fa in sorted((d / "out").glob("*.fa")):
+                    case = ["cliout", k, fa.name]
+                    if only is not None and case != only:
+                        continue
+                    ctx.cur = case
+                    ctx.evaluations += 1
+                    ctx.states += 1
+                    ctx.nontrivial += 1
+                    want_idx, want_asm = index_fasta_file(fa)
+                    want = ({n: (i.length, i.file_offset, i.residues_per_line, i.max_line_length) for n, i in want_idx.items()}, [(s.name, fm.rows_of(s)) for s in want_asm.scaffolds])
+                    st_ = os.stat(fa)
+                    os.utime(fa, ns=(st_.st_mtime_ns - 2_000_000_000, st_.st_mtime_ns - 2_000_000_000))
+                    histories = {
+                        "indexing-run-died-after-the-fai": ["fai"],  # (first: a plain load rewrites both cache files)
+                        "load": [],
+                    }
+                    for hname, steps in histories.items():
+                        for sfx in (".fai",):
+                            if os.path.exists(str(fa) + sfx):
+                                os.unlink(str(fa) + sfx)
+                        if "fai" in steps:
+                            fi0 = FastaIndex(fa)
+                            fi0.index = want_idx
+                            fi0.write_index()
+                        ctx.transitions += 1
+                        try:
+                            fi = FastaIndex(fa)
+                            fi.auto_load()
+                            got = observed(fi)
+                        except Exception as e:  # noqa: BLE001
+                            ctx.count("cliout_load_raised_" + type(e).__name__)
+                            continue
+                        if (got[0], got[1]) != want:
+                            ctx.violation("load-returned-wrong-assembly/fasta-written-by-the-tool", case + [hname], f"got {got[1]!r} expected {want[1]!r}")
+                            break
+                    ctx.outcome(h64(want))
+            finally:
+                cli.cleanup(d)
+        ctx.sample({"cliout": "FASTA files written by pretext-to-asm, loaded afterwards (plain, and after an indexing run that died after the .fai)"})
 
     # ------------------------------------------------------------------ E2p
     def e2p(self, depth, first, ctx, replay_hist=None):
@@ -530,6 +596,8 @@ class C15(Check):
         kind = shard[0]
         if kind == "e2":
             self.e2(shard[1], ctx)
+        elif kind == "cliout":
+            self.cli_outputs(ctx)
         elif kind == "e2link":
             self.e2(shard[1], ctx, contents=("A", "B") if len(shard) < 3 else tuple(shard[2]), link=True)
         elif kind == "e2p":
@@ -543,7 +611,9 @@ class C15(Check):
             self.e3(shard[1], shard[2], shard[3], ctx, first=0, max_kills=1)
 
     def replay(self, case, ctx):
-        if case[0] == "e2p":
+        if case[0] == "cliout":
+            self.cli_outputs(ctx, only=case[:3])
+        elif case[0] == "e2p":
             self.e2p(len(case[1]), 0, ctx, replay_hist=case[1])
         elif case[0] in ("e2", "e2link"):
             _, bufsize, contents, hist = case
